@@ -207,6 +207,10 @@ def limbOps (op : String) (bits : Nat) (ls : String) : String × String :=
   | "sfls" => (resStr (Canon.saturatingFromLimbsSlice bits sl), if ov then toHex (m - 1) else toHex v)
   | "from_limbs" => (match Canon.fromLimbs bits sl with | some l => out l | none => "panic",
       if ov then "panic" else toHex v)
+  | "arkfrom" | "arkfromref" =>
+      -- ark-ff 0.4 `From<BigInt<LIMBS>>`: `from_limbs` behind a conversion trait (raw limbs printed)
+      (match Canon.fromLimbs bits sl with | some l => "value " ++ limbsStr l | none => "panic",
+      if ov then "panic" else "value " ++ limbsStr (toLimbs (nlimbs bits) v))
   | _ => ("bad-op", "bad-op")
 
 def handle (args : List String) (impl : String) : String × String :=
